@@ -46,18 +46,24 @@ HOLE = {
     "str": r"(?:'(?:[^'\\\n]|\\.)*'|\"(?:[^\"\\\n]|\\.)*\")",
 }
 
-T_MATCH = """\
+_M_HEAD = """\
 def match(arr1input, arr2input, presorted={presorted_default:bool}):
 arr1 = np.atleast_1d(arr1input)
 arr2 = np.atleast_1d(arr2input)
+"""
+_M_EL = """\
 el = arr1[{el_index:int}]
 if isinstance(el, {cls1:cls}) or isinstance(el, {cls2:cls}):
     is_string = {str_then:bool}
 else:
     is_string = {str_else:bool}
+"""
+_M_EMPTY = """\
 if arr1.size {empty_op1:cmp} {empty_k1:int} {empty_conn:conn} arr2.size {empty_op2:cmp} {empty_k2:int}:
     mess = {:str}
     raise {empty_err:exc}(mess)
+"""
+_M_REST = """\
 test = np.unique(arr1)
 if test.size {uniq_op:cmp} arr1.size:
     raise {uniq_err:exc}({:str})
@@ -77,6 +83,9 @@ else:
     sub1 = sub1[sub2]
 return (sub1, sub2)
 """
+# the ORDER of the two leading blocks is read from the source (mp_el_first): both orders are recognised
+T_MATCH = _M_HEAD + _M_EL + _M_EMPTY + _M_REST
+T_MATCH_EMPTY_FIRST = _M_HEAD + _M_EMPTY + _M_EL + _M_REST
 
 T_MATCH_MULTI = """\
 def match_multi(arr1input, arr2input, presorted={presorted_default:bool}):
@@ -171,7 +180,23 @@ def normal_form(fn):
 
 def match_template(name, lines):
     """-> {hole name: raw text}; raises TranslateError at the first line outside the recognised shape"""
-    tl = TEMPLATES[name].rstrip("\n").split("\n")
+    if name == "match":
+        try:
+            got = _match_one(name, T_MATCH, lines)
+            got["el_first"] = "True"
+            return got
+        except TranslateError as first:
+            try:
+                got = _match_one(name, T_MATCH_EMPTY_FIRST, lines)
+                got["el_first"] = "False"
+                return got
+            except TranslateError:
+                raise first
+    return _match_one(name, TEMPLATES[name], lines)
+
+
+def _match_one(name, template, lines):
+    tl = template.rstrip("\n").split("\n")
     got, i = {}, 0
     for t in tl:
         optional = t.startswith("?")
@@ -253,6 +278,7 @@ def extract(src):
         ("mp_bad_op", CMP[m["bad_op"]]), ("mp_clamp_minus", m["clamp_minus"]),
         ("mp_filter_if_not", _b(nt(m["filter_if_not"]))),
         ("mp_eq_sorted", CMP[m["eq_sorted"]]), ("mp_eq_presorted", CMP[m["eq_presorted"]]),
+        ("mp_el_first", _b(b(m["el_first"]))),
     ]
     p["match_multi"] = [
         ("mm_presorted_default", _b(b(mm["presorted_default"]))),
@@ -321,7 +347,7 @@ REFERENCE = {
               ("mp_empty_k2", "0"), ("mp_empty_err", "EValue"), ("mp_uniq_op", "CNe"), ("mp_uniq_err", "EValue"),
               ("mp_sort_if_not", "true"), ("mp_side", "SLeft"), ("mp_clamp_conn", "COr"), ("mp_clamp_op", "CGt"),
               ("mp_bad_op", "CEq"), ("mp_clamp_minus", "1"), ("mp_filter_if_not", "true"),
-              ("mp_eq_sorted", "CEq"), ("mp_eq_presorted", "CEq")],
+              ("mp_eq_sorted", "CEq"), ("mp_eq_presorted", "CEq"), ("mp_el_first", "true")],
     "match_multi": [("mm_presorted_default", "false"), ("mm_pass", "PassConst false")],
     "unique": [("up_values_default", "false"), ("up_val_start", "UViaSort 0"), ("up_keep0_pos", "0"),
                ("up_keep0_start", "UViaSort 0"), ("up_i0", "1"), ("up_nkeep0", "0"), ("up_while_op", "CLt"),
